@@ -22,16 +22,20 @@
 package c17
 
 import (
+	"context"
 	"crypto/sha256"
 	"encoding/hex"
 	"encoding/json"
+	"errors"
 	"fmt"
 	"math/rand"
 	"os"
+	"os/exec"
 	"path/filepath"
 	"sort"
 	"strings"
 	"sync"
+	"sync/atomic"
 	"time"
 
 	"verif/core"
@@ -72,6 +76,7 @@ func Run(c *core.Ctx, pool *gjs.Pool) {
 	}
 	c.Assumef("reproducibility is decided by run-to-run equality of sha256(out.js) and sha256(out.js.map) of builds made by the compiler of the working tree in fresh processes; Go re-draws the map iteration order per process and per range statement, so repeated builds SAMPLE the nondeterminism that Build.tla enumerates (detection is probabilistic, see coverage.detection)")
 	c.Assumef("programs are rendered from the shapes of Build.tla / Instances.tla (generic functions and struct types with a method in packages a, b, c; roots in non-generic code; one or two files per package) and decorated with seeded non-generic code; the build cache is off; the output path has the same base name in every build")
+	c.Assumef("scenario packages are resolved in GOPATH mode (GO111MODULE=off, $GOPATH/src/vp): in module mode go/build runs `go list` for every import of every build, three to four times the cost of the compilation; one scenario per run is also built in module mode and must yield the same JavaScript (coverage.module_mode_crosscheck)")
 	c.Assumef("the earlier command of a session is modelled with its own nondeterminism resolved canonically; `gopherjs install e m` is reproduced by BuildProject+WriteCommandPackage of e, then of m, in one build.Session")
 	rng := rand.New(rand.NewSource(c.Seed))
 	thorough := c.Thorough()
@@ -86,16 +91,16 @@ func Run(c *core.Ctx, pool *gjs.Pool) {
 	exp := []*modelExpect{
 		// the code as it is, Collector.Finish ranges over a map: enumerate the order-sensitive shapes
 		{run: ModelRun{Name: "finish", Family: "pass", Bnd: PassBounds(3, "m", "a"), Sorted: false, Sw: code,
-			Invs: []string{"BSound", "BConfluent", "BSeenOK", "BEmit"}, Workers: 4, Timeout: long}},
+			Invs: []string{"BSound", "BConfluent", "BSeenOK", "BEmit"}, Workers: 2, Timeout: long}},
 		// the code as it is, another command was built earlier in the session
 		{run: ModelRun{Name: "session", Family: "pass", Bnd: PassBounds(nFam, "m", "a"), Sorted: true, Sw: code, Nd: Nondet{Session: true},
-			Invs: []string{"BSeenOK", "BEmit"}, Workers: 3, Timeout: long}},
+			Invs: []string{"BSeenOK", "BEmit"}, Workers: 2, Timeout: long}},
 		// the repaired variant under every kind of nondeterminism: Output is a function of the sources
 		{run: ModelRun{Name: "repaired", Family: "pass", Bnd: PassBounds(nFam, "m", "a"), Sorted: true, Sw: repaired, Nd: allNd,
-			Invs: []string{"Reproducible", "NoDangling", "BSound", "BConfluent", "BSeenOK"}, Workers: 3, Timeout: long}},
+			Invs: []string{"Reproducible", "NoDangling", "BSound", "BConfluent", "BSeenOK"}, Workers: 2, Timeout: long}},
 		// the same sort removed from the list of imports only: still a function (source order of sorted files)
 		{run: ModelRun{Name: "mutant_sortImports", Family: "pass", Bnd: PassBounds(nFam, "m", "a"), Sorted: true, Sw: without(repaired, "sortImports"), Nd: allNd,
-			Invs: []string{"Reproducible", "NoDangling"}, Workers: 3, Timeout: long}},
+			Invs: []string{"Reproducible", "NoDangling"}, Workers: 2, Timeout: long}},
 	}
 	// one repair / sort removed from the repaired variant (model mutants): the property must fail.
 	// One declaration suffices for these paths (two roots on one generic function).
@@ -115,11 +120,11 @@ func Run(c *core.Ctx, pool *gjs.Pool) {
 		// discovery order, which only matter for roots in two packages and are covered above), and the
 		// family of the generator of Instances.tla (functions and struct types with a method, field uses)
 		exp = append(exp, &modelExpect{run: ModelRun{Name: "repaired_3", Family: "pass", Bnd: PassBounds(3, "m"), Sorted: true, Sw: repaired, Nd: Nondet{Files: true, Esc: true, Session: true},
-			Invs: []string{"Reproducible", "NoDangling", "BSeenOK"}, Workers: 4, Timeout: long}})
+			Invs: []string{"Reproducible", "NoDangling", "BSeenOK"}, Workers: 2, Timeout: long}})
 		exp = append(exp, &modelExpect{run: ModelRun{Name: "finish_gen", Family: "gen", Bnd: GenBounds(2), Sorted: false, Sw: code,
-			Invs: []string{"BSound", "BConfluent", "BSeenOK", "BEmit"}, Workers: 4, Timeout: long}})
+			Invs: []string{"BSound", "BConfluent", "BSeenOK", "BEmit"}, Workers: 2, Timeout: long}})
 	}
-	runModels(c, exp, 3)
+	runModels(c, exp, 1)
 	if c.InfraErr != nil {
 		return
 	}
@@ -194,7 +199,7 @@ func Run(c *core.Ctx, pool *gjs.Pool) {
 		}
 	}
 	sm, err := RunModel(c, ModelRun{Name: "seeded", Family: "gen", Bnd: ScriptBounds(), Codes: codes, Sorted: true, Sw: code, EmitAll: true,
-		Invs: []string{"BSound", "BConfluent", "BSeenOK", "BEmit"}, Workers: 4, Timeout: long})
+		Invs: []string{"BSound", "BConfluent", "BSeenOK", "BEmit"}, Workers: 2, Timeout: long})
 	if err != nil || !tlcx.MustComplete(c, sm.Res, err, "Build.tla (seeded skeletons)") {
 		if err != nil {
 			c.Infra(err)
@@ -342,7 +347,7 @@ func predict(c *core.Ctx, scen []*Scenario, timeout time.Duration) bool {
 	// violation instead of the known finding.
 	sorted := os.Getenv("C17_SELFTEST") == "sorted_model"
 	m, err := RunModel(c, ModelRun{Name: "predict", Family: "gen", Bnd: b, Given: given, Layouts: lays, Sorted: sorted, Sw: CodeSwitches(), EmitAll: true,
-		Invs: []string{"BSeenOK", "BEmit"}, Workers: 4, Timeout: timeout})
+		Invs: []string{"BSeenOK", "BEmit"}, Workers: 2, Timeout: timeout})
 	if err != nil || !tlcx.MustComplete(c, m.Res, err, "Build.tla (prediction for the scenarios)") {
 		if err != nil {
 			c.Infra(err)
@@ -477,16 +482,16 @@ func (ck *checker) check(s *Scenario, replaying bool) {
 		}
 	}
 	r := Render(s)
-	dir, err := r.Prog.Materialise(c.Scratch)
+	gopath, dir, err := materialise(c.Scratch, r.Prog)
 	if err != nil {
 		c.Infra(err)
 		return
 	}
-	defer os.RemoveAll(dir)
-	outRoot := dir + "-out"
+	defer os.RemoveAll(gopath)
+	outRoot := gopath + "-out"
 	defer os.RemoveAll(outRoot)
 	// guard: the reference toolchain accepts the commands and builds them reproducibly
-	if !ck.guard(s, dir, r) {
+	if !ck.guard(s, gopath, dir, r) {
 		return
 	}
 	plan := ck.plan(s, r, replaying)
@@ -501,7 +506,7 @@ func (ck *checker) check(s *Scenario, replaying bool) {
 			for _, v := range plan[mode] {
 				n++
 				b := &build{Group: fmt.Sprintf("%s minify=%v", mode, minify), Variant: v, out: filepath.Join(outRoot, fmt.Sprintf("b%03d", n), "out.js")}
-				j := Job{Dir: dir, Main: "vp", Out: b.out, Minify: minify, MapFile: true, Dump: true}
+				j := Job{Dir: dir, GoPath: gopath, Main: "vp", Out: b.out, Minify: minify, MapFile: true, Dump: true}
 				switch {
 				case v == "unrelated":
 					j.Before = []string{r.Unrelated}
@@ -516,7 +521,7 @@ func (ck *checker) check(s *Scenario, replaying bool) {
 	}
 	// the builds of one scenario run one after the other (scenarios run in parallel)
 	for _, jb := range jobs {
-		res, err := RunChild(jb.job, 5*time.Minute)
+		res, err := RunChild(jb.job, 10*time.Minute)
 		if err != nil {
 			c.Infra(err)
 			return
@@ -536,6 +541,9 @@ func (ck *checker) check(s *Scenario, replaying bool) {
 	for _, jb := range jobs {
 		bs = append(bs, jb.b)
 	}
+	if s.Origin == "witness:F6" && !replaying {
+		ck.crossCheckModuleMode(r, bs)
+	}
 	ck.mu.Lock()
 	ck.builds += len(bs)
 	if ck.perScenario == nil {
@@ -548,6 +556,41 @@ func (ck *checker) check(s *Scenario, replaying bool) {
 	ck.perScenario[kind] = len(bs)
 	ck.mu.Unlock()
 	ck.evaluate(s, r, bs)
+}
+
+// crossCheckModuleMode builds the scenario once as a module (the way the other checks and the
+// command line resolve packages) and compares the JavaScript with the GOPATH-mode builds that
+// have the same instance numbering: the lookup mode must not change the emitted program.
+func (ck *checker) crossCheckModuleMode(r Rendered, bs []*build) {
+	c := ck.c
+	for try := 0; try < 6; try++ {
+		dir, err := r.Prog.Materialise(c.Scratch)
+		if err != nil {
+			c.Infra(err)
+			return
+		}
+		out := filepath.Join(dir+"-out", "out.js")
+		res, err := RunChild(Job{Dir: dir, Main: "vp", Out: out, MapFile: true, Dump: true}, 10*time.Minute)
+		os.RemoveAll(dir)
+		os.RemoveAll(dir + "-out")
+		if err != nil || res.Err != "" {
+			c.Infra(fmt.Errorf("module-mode cross-check build failed: %v %s", err, res.Err))
+			return
+		}
+		key := normKey(setsKey(res.Sets, "vp"))
+		for _, b := range bs {
+			if b.Group == "dir minify=false" && b.Variant == "plain" && b.Sets == key {
+				if b.JS != res.JSSum {
+					c.Infra(fmt.Errorf("the JavaScript of a module-mode build differs from the GOPATH-mode build of the same scenario with the same instance ids: the cheap lookup mode is not faithful"))
+					return
+				}
+				c.Set("module_mode_crosscheck", "same JavaScript in module mode and GOPATH mode (F6 witness)")
+				return
+			}
+		}
+		// the module-mode build drew an instance order that no GOPATH-mode build has: try again
+	}
+	c.Set("module_mode_crosscheck", "not comparable (no build with the same instance ids)")
 }
 
 func firstLineOf(s string) string {
@@ -567,7 +610,7 @@ func firstLineOf(s string) string {
 
 // guard builds the commands with the reference toolchain, twice; the program
 // must be legal Go and the reference build reproducible.
-func (ck *checker) guard(s *Scenario, dir string, r Rendered) bool {
+func (ck *checker) guard(s *Scenario, gopath, dir string, r Rendered) bool {
 	c := ck.c
 	discard := func(why string) bool {
 		c.Add("spec_guard_discards", 1)
@@ -582,7 +625,7 @@ func (ck *checker) guard(s *Scenario, dir string, r Rendered) bool {
 		var sums []string
 		for i := 0; i < 2; i++ {
 			bin := filepath.Join(d, fmt.Sprintf("native%d.bin", i))
-			res := gjs.NativeBuild(d, bin)
+			res := nativeBuild(gopath, d, bin)
 			if res.TimedOut || res.Err != nil {
 				c.Infra(fmt.Errorf("reference toolchain: %v %s", res.Err, tailStr(res.Out, 300)))
 				return false
@@ -598,6 +641,49 @@ func (ck *checker) guard(s *Scenario, dir string, r Rendered) bool {
 		}
 	}
 	return true
+}
+
+// nativeBuild builds the command in dir with the reference toolchain in GOPATH mode.
+func nativeBuild(gopath, dir, bin string) gjs.RunResult {
+	ctx, cancel := context.WithTimeout(context.Background(), 10*time.Minute)
+	defer cancel()
+	cmd := exec.CommandContext(ctx, "go", "build", "-o", bin, ".")
+	cmd.Dir = dir
+	cmd.Env = append(os.Environ(), "GO111MODULE=off", "GOPATH="+gopath, "GOFLAGS=", "GOPROXY=off", "GOTOOLCHAIN=local", "GOOS=linux", "GOARCH=amd64", "CGO_ENABLED=0")
+	out, err := cmd.CombinedOutput()
+	res := gjs.RunResult{Out: string(out)}
+	if ctx.Err() == context.DeadlineExceeded {
+		res.TimedOut = true
+		return res
+	}
+	if err != nil {
+		var ee *exec.ExitError
+		if errors.As(err, &ee) {
+			res.ExitCode = ee.ExitCode()
+		} else {
+			res.Err = err
+		}
+	}
+	return res
+}
+
+var progSeq int64
+
+// materialise writes the scenario as $gopath/src/vp (GOPATH layout, no go.mod).
+func materialise(scratch string, p gjs.Prog) (gopath, dir string, err error) {
+	n := atomic.AddInt64(&progSeq, 1)
+	gopath = filepath.Join(scratch, fmt.Sprintf("gp%06d", n))
+	dir = filepath.Join(gopath, "src", "vp")
+	for name, content := range p.Files {
+		fp := filepath.Join(dir, name)
+		if err = os.MkdirAll(filepath.Dir(fp), 0o755); err != nil {
+			return
+		}
+		if err = os.WriteFile(fp, []byte(content), 0o644); err != nil {
+			return
+		}
+	}
+	return
 }
 
 func hashOf(b *build) string { return b.JS + "/" + b.Map }
